@@ -38,7 +38,12 @@ type pollWorld struct {
 // and a long honest certificate chain to be "produced" over time.
 func newPollWorld(t *rapid.T, ctx context.Context, nPeers int, total int, min, initial, max time.Duration) *pollWorld {
 	src, _, _ := genStore(t, "src", total, 0)
-	mn, hs := newNet(t, nPeers+1)
+	// optionally one more peer that does not serve the protocol at all (every request to it fails)
+	dead := 0
+	if rapid.IntRange(0, 2).Draw(t, "deadpeer") == 0 {
+		dead = 1
+	}
+	mn, hs := newNet(t, nPeers+1+dead)
 	w := &pollWorld{chain: src.certs, clk: clock.NewMock()}
 	w.clk.Set(time.Unix(1_700_000_000, 0))
 	var peers []peer.ID
@@ -56,6 +61,9 @@ func newPollWorld(t *rapid.T, ctx context.Context, nPeers int, total int, min, i
 		}
 		srvs = append(srvs, srv)
 		peers = append(peers, hs[i+1].ID())
+	}
+	if dead == 1 {
+		peers = append(peers, hs[nPeers+1].ID())
 	}
 	ds := vds.New()
 	st, err := certstore.CreateStore(ctx, ds, src.first, src.tables[0])
